@@ -1,0 +1,5 @@
+//go:build !verif
+
+package wallet
+
+func verifPoint(w *Wallet, name string) {}
